@@ -12,7 +12,7 @@ from jv.props import common as C
 
 ID = "C10"
 LEVEL = "exploration"
-BUDGET = {"quick": 3000, "thorough": 48000}
+BUDGET = {"quick": 4800, "thorough": 60000}
 RULE = (
     "two generated sub-cases. handles (model-based operation sequences): 2-4 Cluster handles on distinct virtual hosts "
     "perform 10-30 generated operations (load with/without promotion, promote, demote, update_job_status, "
